@@ -51,12 +51,13 @@ macro_rules! comp_int { ($t:ty, $tag:expr) => { impl Comp for $t {
     fn alpha_max() -> $t { <$t>::MAX } fn czero() -> $t { 0 }
 } } }
 comp_int!(u8, "u8"); comp_int!(u16, "u16");
+comp_int!(u32, "u32"); comp_int!(u64, "u64"); comp_int!(u128, "u128"); // coverage audit (c03_more.rs)
 
-fn arr_txt<T: Comp>(a: &[T]) -> String { a.iter().map(|x| x.txt()).collect::<Vec<_>>().join(" ") }
-fn bounds_txt<T: Comp>(bs: &[B<T>]) -> String { bs.iter().map(|b| match b { B::Both(l, h) => format!("{} {}", l.txt(), h.txt()), B::Min(l) => format!("{} -", l.txt()), B::Un => "* *".to_string() }).collect::<Vec<_>>().join(" ") }
-fn same_arr<T: Comp>(a: &[T], b: &[T]) -> bool { a.len() == b.len() && a.iter().zip(b).all(|(x, y)| x.same(*y)) }
+pub(crate) fn arr_txt<T: Comp>(a: &[T]) -> String { a.iter().map(|x| x.txt()).collect::<Vec<_>>().join(" ") }
+pub(crate) fn bounds_txt<T: Comp>(bs: &[B<T>]) -> String { bs.iter().map(|b| match b { B::Both(l, h) => format!("{} {}", l.txt(), h.txt()), B::Min(l) => format!("{} -", l.txt()), B::Un => "* *".to_string() }).collect::<Vec<_>>().join(" ") }
+pub(crate) fn same_arr<T: Comp>(a: &[T], b: &[T]) -> bool { a.len() == b.len() && a.iter().zip(b).all(|(x, y)| x.same(*y)) }
 
-fn candidates<T: Comp, const N: usize>(bounds: &[B<T>; N], rng: &mut Rng, n_rand: usize) -> Vec<[T; N]> {
+pub(crate) fn candidates<T: Comp, const N: usize>(bounds: &[B<T>; N], rng: &mut Rng, n_rand: usize) -> Vec<[T; N]> {
     let per: Vec<Vec<T>> = bounds.iter().map(|b| match b { B::Both(l, h) => T::around(*l, Some(*h), rng), B::Min(l) => T::around(*l, None, rng), B::Un => T::wild(rng) }).collect();
     let mut out = vec![];
     // full product of the per-component boundary classes
@@ -66,7 +67,7 @@ fn candidates<T: Comp, const N: usize>(bounds: &[B<T>; N], rng: &mut Rng, n_rand
     out
 }
 
-fn run_type<C, T: Comp, const N: usize>(out: &mut Out, rng: &mut Rng, key: &str, bounds: [B<T>; N], n_rand: usize)
+pub(crate) fn run_type<C, T: Comp, const N: usize>(out: &mut Out, rng: &mut Rng, key: &str, bounds: [B<T>; N], n_rand: usize)
 where C: ArrayCast<Array = [T; N]> + Clamp + ClampAssign + IsWithinBounds<Mask = bool> + Clone,
       Alpha<C, T>: Clamp + ClampAssign + Clone, T: palette::stimulus::Stimulus,
 {
@@ -116,10 +117,10 @@ where C: ArrayCast<Array = [T; N]> + Clamp + ClampAssign + IsWithinBounds<Mask =
 
 /// HWB family: whiteness + blackness coupled
 /// protocol lines are suppressed for configurations the Lean model does not cover (integer HWB arithmetic, the macro-generated partial CAM16 types): oracle only
-static EMIT: std::sync::atomic::AtomicBool = std::sync::atomic::AtomicBool::new(true);
-fn emit() -> bool { EMIT.load(std::sync::atomic::Ordering::Relaxed) }
+pub(crate) static EMIT: std::sync::atomic::AtomicBool = std::sync::atomic::AtomicBool::new(true);
+pub(crate) fn emit() -> bool { EMIT.load(std::sync::atomic::Ordering::Relaxed) }
 
-fn run_hwb<C, T: Comp + std::ops::Add<Output = T>>(out: &mut Out, rng: &mut Rng, key: &str, one: T, n_rand: usize, mk: fn(f64) -> T)
+pub(crate) fn run_hwb<C, T: Comp + std::ops::Add<Output = T>>(out: &mut Out, rng: &mut Rng, key: &str, one: T, n_rand: usize, mk: fn(f64) -> T)
 where C: ArrayCast<Array = [T; 3]> + Clamp + ClampAssign + IsWithinBounds<Mask = bool> + Clone {
     let tag = format!("{}:{}", key, T::TAG);
     let z = T::czero();
@@ -151,7 +152,7 @@ where C: ArrayCast<Array = [T; 3]> + Clamp + ClampAssign + IsWithinBounds<Mask =
 /// FromColor = clamp ∘ unclamped, TryFromColor succeeds exactly when the unclamped result is within bounds
 /// the collection forms of the clamping conversion (`Vec<D>: FromColor<Vec<S>>`, `Box<[D]>: FromColor<Box<[S]>>`, in place over the same
 /// allocation) must give, element for element, the single-colour `from_color`; likewise the unclamped forms
-fn run_convert_collections<S, D, T: Comp>(out: &mut Out, key: &str, srcs: &[[T; 3]])
+pub(crate) fn run_convert_collections<S, D, T: Comp>(out: &mut Out, key: &str, srcs: &[[T; 3]])
 where S: ArrayCast<Array = [T; 3]> + Clone, D: ArrayCast<Array = [T; 3]> + FromColorUnclamped<S> + FromColor<S> + Clamp + Clone,
       Vec<D>: FromColor<Vec<S>> + FromColorUnclamped<Vec<S>>, Box<[D]>: FromColor<Box<[S]>> + FromColorUnclamped<Box<[S]>> {
     let finite = |a: &[T; 3]| a.iter().all(|x| x.partial_cmp(x).is_some());
@@ -172,7 +173,7 @@ where S: ArrayCast<Array = [T; 3]> + Clone, D: ArrayCast<Array = [T; 3]> + FromC
     out.count("cls:collection-forms");
 }
 
-fn run_convert<S, D, T: Comp, const N: usize, const M: usize>(out: &mut Out, key: &str, srcs: &[[T; N]])
+pub(crate) fn run_convert<S, D, T: Comp, const N: usize, const M: usize>(out: &mut Out, key: &str, srcs: &[[T; N]])
 where S: ArrayCast<Array = [T; N]> + Clone, D: ArrayCast<Array = [T; M]> + FromColorUnclamped<S> + FromColor<S> + TryFromColor<S> + Clamp + IsWithinBounds<Mask = bool> + Clone {
     for s in srcs {
         let sc: S = cast::from_array(*s);
@@ -251,5 +252,8 @@ pub fn run(tier: &str, seed: u64, dir: &str) {
         run_hwb::<Hwb<S, u8>, u8>(&mut out, &mut rng, "Hwb", 255, n, |x| (x.clamp(0.0, 1.0) * 255.0) as u8);
         EMIT.store(true, std::sync::atomic::Ordering::Relaxed);
     }
+    // coverage audit: forms, entry points, component types and type parameters the clauses above do not drive (`c03_more.rs`).
+    // Called last, so that the case stream above is unchanged.
+    crate::c03_more::run_more(&mut out, &mut rng, tier);
     out.finish(dir, "");
 }
